@@ -52,6 +52,7 @@ def outside_spec(state):
             # siblings whose names merely *start* like the root (path = root + selector)
             "rootURL:http:": {"example.com": CANARY + b" prefix sibling\n", "example.com.abstract": CANARY + b" abstract\n"},
             "rootx": {"f.txt": CANARY + b"\n"},
+            "root-private": {"secret.txt": CANARY + b"\n"},
             "root.abstract": CANARY + b" root abstract\n",
         }
     return {"other.txt": b"state B\n", "x": {}}
@@ -153,7 +154,8 @@ def _requests(tier):
         b"/m.mbox|/MBOX-MESSAGE/1", b"/../m.mbox|/MBOX-MESSAGE/1", b"/../md|/MAILDIR-MESSAGE/1", b"/secret|/MBOX-MESSAGE/1",
         b"/a/../../secret", b"/a/..\\..\\secret", b"/a\\..\\..\\secret", b"/..%2fsecret", b"/%2e%2e/secret", b"/1/../secret", b"/1/1/../secret",
         b"/URL:http://h/../../secret", b"URL:file:///etc/passwd", b"/s.sh|../secret", b"/s.sh?../secret", b"/t.html.tal/../secret",
-        b"/gm/../../secret", b"/.../secret", b"/..", b"/../", b"/../.", b"/./../secret", b"//secret", b"/\\secret", b"/a/./f.txt",
+        b"/gm/../../secret", b"/.../secret", b"/\xe2\x80\xa5/secret", b"/a/\xef\xbc\x8e\xef\xbc\x8e/\xef\xbc\x8e\xef\xbc\x8e/secret", b"/a\xef\xbc\x8f..\xef\xbc\x8f..\xef\xbc\x8fsecret",
+        b"/\xef\xbc\x8e./secret", b"x/f.txt", b"x/../secret", b"URL:http:/example.com", b".abstract", b"-private/secret.txt", b"/..", b"/../", b"/../.", b"/./../secret", b"//secret", b"/\\secret", b"/a/./f.txt",
         b"/a//f.txt", b"/a/.\\f.txt", b"/a\\\\f.txt", b"/f.txt\0", b"/\0/../secret", b"/secret\0.txt", b"/..\0",
     ]
     plist = list(dict.fromkeys(plist + extra))
@@ -175,8 +177,10 @@ def _family(w):
         return "gopherp"
     if w.startswith("gopher"):
         return "gopher"
-    if w in ("http", "https", "http_head"):
+    if w in ("http", "https", "http_head", "http_rel"):
         return "http"
+    if w == "spartan_rel":
+        return "spartan"
     return w
 
 
